@@ -260,12 +260,13 @@ theorem filterClasses_eq (x : AttrCtx) (classes : List Str) :
   · simp
   · simp [List.filter_filter, Bool.and_comm]
 
-/-- The attribute needs no action: its name is not removed and is allowed, and if it is the
-`class` attribute every class of it passes the class filters. -/
+/-- The attribute needs no action: its name is not removed and — if there is an allow list — it
+is an HTML attribute (no namespace) whose name is allowed, and if it is the `class` attribute
+every class of it passes the class filters. -/
 def AttrGood (x : AttrCtx) (a : Attr) : Prop :=
   optContains x.removeAttrs a.name = false ∧
   (x.whitelistAttrs = true →
-    (optContains x.listAllow a.name || optContains x.modeAllow a.name) = true) ∧
+    a.isHtml = true ∧ (optContains x.listAllow a.name || optContains x.modeAllow a.name) = true) ∧
   (a.name = className → ∀ cl ∈ splitWs a.value, classPass x cl = true)
 
 def _root_.Ruma.Html.AttrAction.target : AttrAction → Attr
@@ -284,48 +285,52 @@ theorem filter_length_eq {α : Type} (p : α → Bool) (l : List α) :
         Bool.false_eq_true, false_and, iff_false]
       omega
 
+/-- The allow-list test of the closure: `true` = the attribute is removed for its name. -/
+def nameBad (x : AttrCtx) (a : Attr) : Bool :=
+  x.whitelistAttrs &&
+    (!a.isHtml || (!optContains x.listAllow a.name && !optContains x.modeAllow a.name))
+
+theorem nameBad_false_iff (x : AttrCtx) (a : Attr) :
+    nameBad x a = false ↔ (x.whitelistAttrs = true →
+      a.isHtml = true ∧ (optContains x.listAllow a.name || optContains x.modeAllow a.name) = true) := by
+  unfold nameBad
+  cases x.whitelistAttrs <;> cases a.isHtml <;> cases optContains x.listAllow a.name <;>
+    cases optContains x.modeAllow a.name <;> simp
+
+/-- The `class` branch of the closure returns nothing exactly when every class passes. -/
+theorem classBranch_none_iff (x : AttrCtx) (a : Attr) :
+    (let classes := splitWs a.value
+     let kept := filterClasses x.removeClasses x.whitelistClasses x.allowClasses classes
+     if kept.length == classes.length then (none : Option AttrAction)
+     else if kept.isEmpty then some (.remove a)
+     else some (.replaceValue a (joinSp kept))) = none ↔
+    ∀ cl ∈ splitWs a.value, classPass x cl = true := by
+  simp only [filterClasses_eq]
+  rw [← filter_length_eq]
+  by_cases hl : (List.filter (classPass x) (splitWs a.value)).length = (splitWs a.value).length
+  · simp [hl]
+  · simp only [beq_iff_eq, hl, if_false, iff_false]
+    split <;> simp
+
 theorem attrAction_none_iff (x : AttrCtx) (a : Attr) : attrAction x a = none ↔ AttrGood x a := by
-  unfold attrAction AttrGood
+  unfold AttrGood
+  rw [← nameBad_false_iff]
+  unfold attrAction
   cases h1 : optContains x.removeAttrs a.name
   · simp only [Bool.false_eq_true, if_false, true_and]
-    cases hw : x.whitelistAttrs
-    · simp only [Bool.false_and, Bool.false_eq_true, if_false, false_implies, true_and]
+    cases hb : nameBad x a
+    · have hb' : (x.whitelistAttrs &&
+          (!a.isHtml || (!optContains x.listAllow a.name && !optContains x.modeAllow a.name))) = false := hb
+      simp only [hb', Bool.false_eq_true, if_false, true_and]
       by_cases hc : a.name = className
-      · simp only [hc, beq_self_eq_true, if_true, filterClasses_eq, forall_const]
-        rw [← filter_length_eq]
-        by_cases hl : (List.filter (classPass x) (splitWs a.value)).length = (splitWs a.value).length
-        · simp [hl]
-        · simp only [beq_iff_eq, hl, if_false, iff_false]
-          split <;> simp
+      · simp only [hc, beq_self_eq_true, if_true, forall_const]
+        exact classBranch_none_iff x a
       · have : (a.name == className) = false := by simpa using hc
         simp [this, hc]
-    · cases hl : optContains x.listAllow a.name
-      · cases hm : optContains x.modeAllow a.name
-        · simp
-        · simp only [Bool.true_and, Bool.not_false, Bool.not_true, Bool.and_false, Bool.false_eq_true, if_false,
-            Bool.or_true, forall_const, true_and]
-          by_cases hc : a.name = className
-          · simp only [hc, beq_self_eq_true, if_true, filterClasses_eq, forall_const]
-            rw [← filter_length_eq]
-            by_cases hl : (List.filter (classPass x) (splitWs a.value)).length = (splitWs a.value).length
-            · simp [hl]
-            · simp only [beq_iff_eq, hl, if_false, iff_false]
-              split <;> simp
-          · have : (a.name == className) = false := by simpa using hc
-            simp [this, hc]
-      · simp only [Bool.true_and, Bool.not_true, Bool.false_and, Bool.false_eq_true, if_false,
-          Bool.true_or, forall_const, true_and]
-        by_cases hc : a.name = className
-        · simp only [hc, beq_self_eq_true, if_true, filterClasses_eq, forall_const]
-          rw [← filter_length_eq]
-          by_cases hl : (List.filter (classPass x) (splitWs a.value)).length = (splitWs a.value).length
-          · simp [hl]
-          · simp only [beq_iff_eq, hl, if_false, iff_false]
-            split <;> simp
-        · have : (a.name == className) = false := by simpa using hc
-          simp [this, hc]
+    · have hb' : (x.whitelistAttrs &&
+          (!a.isHtml || (!optContains x.listAllow a.name && !optContains x.modeAllow a.name))) = true := hb
+      simp [hb']
   · simp
-
 
 /-- What the `filter_map` closure can return for attribute `a`. -/
 theorem attrAction_some (x : AttrCtx) (a : Attr) (act : AttrAction) (h : attrAction x a = some act) :
@@ -377,11 +382,13 @@ theorem attrAction_replace_good (x : AttrCtx) (a b : Attr) (v : Str)
       · simp [h1] at h
     · intro hw
       cases h1 : optContains x.removeAttrs b.name
-      · cases hl : optContains x.listAllow b.name
-        · cases hm : optContains x.modeAllow b.name
-          · simp [h1, hw, hl, hm] at h
-          · rfl
-        · rfl
+      · cases hh : b.isHtml
+        · simp [h1, hw, hh] at h
+        · cases hl : optContains x.listAllow b.name
+          · cases hm : optContains x.modeAllow b.name
+            · simp [h1, hw, hh, hl, hm] at h
+            · simp [Attr.isHtml] at hh ⊢; exact hh
+          · simp [Attr.isHtml] at hh ⊢; exact hh
       · simp [h1] at h
     · intro _ cl hcl
       simp only at hcl
